@@ -39,3 +39,21 @@ Proof.
     unfold hier_x. cbn [erase_eids map]. rewrite Hmeta.
     rewrite (F a1 Ha1), (F a2 Ha2). reflexivity.
 Qed.
+
+(* a crossheading carrying any ids, or none *)
+Theorem crossheading_round_trip_any_eids uri prefix s a root_meta att_meta :
+  assoc_str uri meta_templates = Some (root_meta, att_meta) ->
+  line_text s ->
+  Forall (fun kv => fst kv = EID) a ->
+  convert uri (of_string "hier_element") prefix (unparse_doc (El CHT a [Tx s]))
+  = OkR (El CHT [(EID, candidate prefix CHT (of_string "1"))] [Tx s]).
+Proof.
+  intros Hm Hs Ha.
+  apply round_trip_regenerates_eids.
+  - exact (crossheading_round_trip uri prefix s root_meta att_meta Hm Hs).
+  - assert (F : forall a, Forall (fun kv : str * str => fst kv = EID) a -> remove_attr EID a = []).
+    { intros a0 Ha0. induction Ha0 as [|[k v] r Hk _ IH]; [reflexivity|]. cbn [fst] in Hk. subst k. cbn [remove_attr].
+      replace (str_eqb EID EID) with true by reflexivity. exact IH. }
+    cbn [erase_eids map]. replace (str_eqb CHT META) with false by reflexivity.
+    rewrite (F a Ha). reflexivity.
+Qed.
